@@ -55,6 +55,7 @@ type zzChainModel struct {
 	// block contents (C16 recovery): height -> transactions
 	txsAt  map[int32][]*wire.MsgTx
 	rescans   int   // rescan requests received
+	onBlockHash func(height int64) // C16: called at every GetBlockHash (nil: nothing)
 	filterErr error // C16: FilterBlocks fails with this error while set
 	concreteTs bool // C16 batch harness: concrete block timestamps
 	params *chaincfg.Params
@@ -131,6 +132,9 @@ func (c *zzChainModel) GetBestBlock() (*chainhash.Hash, int32, error) {
 }
 
 func (c *zzChainModel) GetBlockHash(height int64) (*chainhash.Hash, error) {
+	if c.onBlockHash != nil {
+		c.onBlockHash(height)
+	}
 	b, ok := c.at(int32(height))
 	if !ok {
 		return nil, errors.New("block height out of range")
